@@ -123,7 +123,8 @@ int _vnacommon_spline_calc(int n, const double *x_vector,
 	if (hp[i] < MIN_DX) {
 	    /* error reported by caller */
 	    errno = EINVAL;
-	    return -1;
+	    rv = -1;
+	    goto out;
 	}
     }
 
